@@ -92,7 +92,7 @@ func genTable(r *hutil.Rng, name string) *Table {
 		c := Col{Name: fmt.Sprintf("c%d", i+1)}
 		c.Typ = []string{"INT", "BIGINT", "DOUBLE", "TINYINT", "VARCHAR", "VARCHAR", "DECIMAL", "DATETIME", "DATE", "TIMESTAMP",
 			"CHAR", "TEXT", "VARBINARY", "BLOB", "FLOAT", "INT", "VARCHAR", "BIGINT",
-			"TINYINT UNSIGNED", "SMALLINT", "SMALLINT UNSIGNED", "INT UNSIGNED"}[r.Intn(22)]
+			"TINYINT UNSIGNED", "SMALLINT", "SMALLINT UNSIGNED", "INT UNSIGNED", "DOUBLE", "DOUBLE", "FLOAT", "BIGINT"}[r.Intn(26)]
 		c.Nullable = r.Chance(1, 2)
 		t.Cols = append(t.Cols, c)
 	}
@@ -382,7 +382,11 @@ func (g *genCtx) genStmt(t *Table, own func(i int) bool, explicit bool) Stmt {
 		}
 		return row
 	}
-	switch k := r.Intn(10); {
+	k := r.Intn(10)
+	if len(t.Keys) == 2 && t.Keys[0].Typ == "VARCHAR" && r.Chance(1, 2) {
+		k = 5 // UPDATE: images holding several rows with composite character keys
+	}
+	switch {
 	case k < 3: // INSERT
 		s := Stmt{Kind: "insert", Table: t.Name}
 		withKey := !(auto && r.Chance(2, 3))
@@ -504,6 +508,9 @@ func genPlan(r *hutil.Rng, stream string, seed uint64, idx int) *Plan {
 		}
 		g.tables = append(g.tables, t)
 		n := r.Intn(7)
+		if len(t.Keys) == 2 && t.Keys[0].Typ == "VARCHAR" && n < 2 {
+			n = 2 + r.Intn(5) // the colliding key pairs are neighbours
+		}
 		g.nrows[t.Name], g.fresh[t.Name] = n, n+10
 		var rows []Row
 		for k := 1; k <= n; k++ {
@@ -521,6 +528,15 @@ func genPlan(r *hutil.Rng, stream string, seed uint64, idx int) *Plan {
 		}
 	}
 	p.Tables = g.tables
+	for _, t := range g.tables {
+		if len(t.Keys) == 2 && t.Keys[0].Typ == "VARCHAR" {
+			// composite character keys: exercise the validation's row matching on images that hold many rows
+			withForeign, g.ranges = false, true
+			if r.Chance(3, 4) {
+				dv = true
+			}
+		}
+	}
 	// odd initial keys belong to the transaction, even ones to foreign writers (c01); c09/c10: everything is the transaction's
 	own := func(i int) bool { return !withForeign || i%2 == 1 || i > 6 }
 	nb := 1 + r.Intn(3)
